@@ -96,6 +96,12 @@ REVERT_PROPS = {
     'Kafka partitions found by refresh_partitions': ['C09'], 'combine_latest can drop an input': ['C15'],
     'zip keeps emitting after an input': ['C15'], 'a node or source declared asynchronous': ['C19'],
     'Dask gather emits results in arrival order': ['C20'],
+    'Dask scatter emits elements in arrival order': ['C20'],
+    'a node joining a bound pipeline binds': ['C19', 'C03'],
+    'a node joining an asynchronous pipeline passes the mode': ['C19', 'C03'],
+    'concurrent blocking emits do not trip': ['C16', 'C03'],
+    'rate_limit keeps arrival order and spacing': ['C02', 'C13'],
+    'slice stays within its end': ['C01'],
 }
 
 
